@@ -127,7 +127,9 @@ def setup(prior, stale, corruption):
         # what a restore of ANOTHER archive leaves behind when it is killed after extraction
         st = proj.out / _STAGING
         st.mkdir()
-        other = build_archive("none", rows=[("//:e", 77)], tag="STALE")
+        # (for an incoming archive that lacks a listed directory: the intact copy of that same archive, so that the staging
+        # directory left behind holds exactly the member the incoming archive is missing)
+        other = build_archive("none") if corruption == "directory-removed" else build_archive("none", rows=[("//:e", 77)], tag="STALE")
         p = subprocess.run(["tar", "xzf", "-", "-C", str(st)], input=other)
         assert p.returncode == 0
     arch = os.path.join(str(proj.root), "incoming.tar.gz")
